@@ -4,6 +4,15 @@ import json, os
 HERE = os.path.dirname(os.path.dirname(os.path.abspath(__file__)))
 props = [json.loads(l) for l in open(os.path.join(HERE, "properties.jsonl"))]
 CLAIMED = {
+ "C12": dict(module="ClassModel", design="5 C12", technique="TLA+ spec ClassModel (explicit heap of Parameter objects, value cells, class dicts, instances) + TLC frame properties; generated interleavings replayed on real classes/instances comparing every class and instance after each step",
+   text="TLC checks InstOpsLocal (an instance-level assignment or Parameter edit changes nothing the classes or other instances see), InstantiatePrivate and the constant/readonly stability properties on all interleavings of <=3-4 operations; generated behaviours (exhaustive to 3-4 operations, random to 8) over instance creation, class/subclass/instance assignments, per-instance Parameter edits, in-place mutation and namespace reads are replayed, comparing after each step the value and cell identity (up to renaming) and Parameter attributes seen by every class and instance.",
+   note="Chain A<-B, <=2-3 instances; parameter kinds instantiate=True list, instantiate=False list, constant (object and None default), per_instance=False, plain Integer -- one configuration at a time."),
+ "C13": dict(module="ClassModel", design="5 C13", technique="TLA+ spec ClassModel with namespace reads as explicit actions (the specification defines .param by the MRO walk, i.e. has no cache); generated interleavings of reads / class-level sets / add_parameter / instance creation replayed, checking .param against inspect.getattr_static and getattr after each step",
+   text="In the specification attribute lookup and the .param namespace are the same function of the class dictionaries, so agreement holds by construction; the implementation caches, so every read is an action and TLC generates all interleavings (chain of 3, <=3-4 operations exhaustively, random to 8) of namespace reads with class-level assignments at every level, add_parameter at every level, instance creation and instance sets. After every step the replay checks for every class and instance: each declared name is listed, .param[name] is the very descriptor found by inspect.getattr_static, its default is the class attribute, and .param.values() equals getattr.",
+   note="Plain Integer parameter plus one name added later; instances <=2-3."),
+ "C14": dict(module="ClassModel", design="5 C14", technique="TLA+ spec ClassModel with constant / readonly kinds and edit_constant blocks (nested, failing) as actions + TLC ConstStable / ReadonlyNever; generated histories replayed comparing identity of held objects, flags and exception class",
+   text="TLC checks that the object held by a constant parameter of an instance changes only under an open edit_constant block of that instance and that readonly defaults never change, over histories of constructor arguments, instance sets (attribute and update routes, including re-assignment of the identical object), class-level sets on declaring class and subclass, nested and failing edit_constant blocks. The replay compares the identity of every held object, the constant flags at class and instance level after each block, and that forbidden assignments raise TypeError and leave the value untouched.",
+   note="One open known finding (class-level flag cleared during a block leaks into copies made meanwhile). While a block is open on one instance other instances' constant parameters are not assigned (the property does not say)."),
  "C11": dict(module="Inherit", design="5 C11", technique="TLA+ spec Inherit (declarative per-attribute merge along the MRO + failure condition) checked by TLC against the re-validation rule; every enumerated hierarchy built for real (class body and add_parameter) and every slot compared",
    text="The specification gives, for each hierarchy shape (chain, chain with a skipping class, diamond in both base orders) and each combination of declarations, the merged value of every Parameter attribute and whether class creation must fail; TLC checks NoContradiction, InstantiateInherited and that the implementation's re-validation trigger is sufficient, over the whole enumerated space. Every hierarchy is then built with type() and again through add_parameter, comparing type, default, bounds, doc, constant, allow_None, instantiate and whether creation raised.",
    note="Exhaustive over shapes x curated declaration set (18 declarations; quick tier uses a 12-declaration subset); declarations whose own constructor raises are outside the domain."),
